@@ -573,8 +573,9 @@ def oracle_counts(program, asm: models.Assembly, names, verdict: models.FamilyVe
     klass = verdict.klass
     if res.outcome == "livelock":
         return out  # C02's business
+    unreal = res.outcome == "exc:ValueError" and _may_be_unrealisable(program)
     if klass == "conflict":
-        if res.outcome != "exc:InconsistentGradingsError":
+        if res.outcome != "exc:InconsistentGradingsError" and not unreal:
             what = [f"{n}.a{a}={c}" for (_, known) in verdict.conflicts for (n, a, c) in known]
             adj = program.get("meta", {}).get("adjacent_conflict")
             out.append(Violation("C01", "conflict-not-rejected",
@@ -582,7 +583,7 @@ def oracle_counts(program, asm: models.Assembly, names, verdict: models.FamilyVe
                                  key="conflict-not-rejected:" + ("adjacent" if adj else "separated")))
         return out
     if klass == "conflict+undefined":
-        if res.outcome not in ("exc:InconsistentGradingsError", "exc:UndefinedGradingsError"):
+        if res.outcome not in ("exc:InconsistentGradingsError", "exc:UndefinedGradingsError") and not unreal:
             out.append(Violation("C01", "conflict-not-rejected", f"conflicting and missing chops but outcome is {res.outcome}"))
         return out
     if res.outcome != "ok" or parsed is None:
@@ -649,7 +650,7 @@ def oracle_outcome(program, verdict: models.FamilyVerdict, res: RunResult, pre_f
             else:
                 out.append(Violation("C02", "well-posed-not-written", f"every family has a chop, no conflict, but outcome is {res.outcome}: {res.exc_msg}"))
     elif klass == "undefined":
-        if res.outcome != "exc:UndefinedGradingsError":
+        if res.outcome != "exc:UndefinedGradingsError" and not (res.outcome == "exc:ValueError" and _may_be_unrealisable(program)):
             out.append(Violation("C02", "undefined-not-rejected", f"a family has no chop but outcome is {res.outcome} {res.exc_msg}"))
     if res.outcome != "ok":
         ops = [op for op in res.fs_ops if len(op) > 1 and op[1] == DICT_PATH]
